@@ -118,7 +118,20 @@ impl<W, R, T> CompilationScope<'_, W, R, T> {
         };
         let defaults = param_static_defaults
             .into_iter()
-            .filter_map(|s| s.map(|s| self.compile(s)))
+            .zip(spec.params.iter())
+            .filter_map(|(s, param)| {
+                s.map(|s| {
+                    let default = self.compile(s)?;
+                    let default_type = self.type_of(&default)?;
+                    match param.type_.bind_in_assignment(&default_type) {
+                        Some(bind) if bind.is_empty() => Ok(default),
+                        _ => Err(CompilationError::InvalidArgumentType {
+                            expected: param.type_.clone(),
+                            got: default_type,
+                        }),
+                    }
+                })
+            })
             .collect::<Result<_, _>>()
             .map_err(|e| e.trace(input))?;
         let param_len = param_names.len();
